@@ -499,8 +499,8 @@ func (ev *c08Eval) eval(n *c08Node) c08Val {
 		if n.A.Kind == "neg" {
 			// a is -(inner); the machine cancels the two prefix minus tokens without coercing
 			inner := ev.peek(n.A.A)
-			if inner.K != "num" {
-				ev.dev("neg:double-cancel")
+			if inner.K != "num" || (inner.N == 0 && math.Signbit(inner.N)) {
+				ev.dev("neg:double-cancel") // (--x also keeps a negative zero that 0-(0-x) would normalise)
 			}
 		}
 		switch {
@@ -836,7 +836,8 @@ func (st *c08State) formula(r *Run, opname, key string, tree *c08Node, spaced bo
 	specS := c08SpecStr(spec)
 	noLine := false
 	if ev.inexact {
-		if spec.K != "num" || !strings.HasPrefix(raw, "num ") {
+		if key != "" || spec.K != "num" || !strings.HasPrefix(raw, "num ") {
+			// (a formula cell with an inexact power would hand a 1-ulp difference on to later lines)
 			r.Stat("skipped:inexact-pow-nonnumeric (oracle only)")
 			if key != "" {
 				// still define the cell for later references, but exactly as a blank on both sides
